@@ -194,6 +194,10 @@ def corpus():
     c.append(dict(base_case('strong', ['create', 'getnew']), sched={'first': 2, 'pre': [[0, 8, 1]], 'prio': [1, 2]}, tag='created_overwrites_get_miss'))
     # two sqlmeta.expireAll
     c.append(dict(base_case('strong', ['mexall', 'mexall']), sched={'first': 2, 'pre': [[0, 20, 1]], 'prio': [1, 2]}, tag='getall_unlocked_iteration'))
+    # fixed by ad272ca: expire() of an instance that was expired (and purged) earlier purged the instance registered since
+    c.append({'rows': [1], 'cfg': dict(CFG), 'world': 'strong', 'ops': ['stale-expire'],
+              'progs': [[['get', 1]], [['expire', [0, 0]], ['get', 1], ['expire', [0, 0]]]],
+              'sched': {'first': 1, 'pre': []}, 'tag': 'expire_of_expired_instance_purges_current'})
     # the seeded defect "no re-check under the lock" needs exactly this shape
     c.append(dict(base_case('fresh', ['get1', 'get1']), sched={'first': 1, 'pre': [[0, 9, 2]], 'prio': [1, 2]}, tag='double_checked_lookup'))
     return c
@@ -449,8 +453,9 @@ def classify_by_shape(c, o, f):
 def classify(c, o, f):
     """The one open finding, recognised narrowly: a get of the row being created registers its own instance
     (line 153 of put) after the creator's INSERT (main.py, queryInsertID) and before the creator's write in
-    created().  The findings created_vs_expireall_iteration, created_lost_in_expireall (fixed by 6765e29) and
-    getall_unlocked_iteration (fixed by 7ef2364) are no longer classified: they would be violations."""
+    created().  The findings created_vs_expireall_iteration, created_lost_in_expireall (fixed by 6765e29),
+    getall_unlocked_iteration (fixed by 7ef2364) and expire_of_expired_instance_purges_current (fixed by ad272ca)
+    are not classified: they would be violations."""
     if not isinstance(o, dict) or 'trace' not in o:
         return None
     if f.get('kind') not in ('identity', 'unreachable'):
